@@ -69,6 +69,8 @@ func c07Schema(r *rand.Rand) models.IndexSchema {
 
 func (c07) Generate(r *rand.Rand, tier string) (sim.Config, any) {
 	cfg := RandomSimConfig(r)
+	cfg.StmtYield = pick(r, []float64{0, 0, 0.02, 0.1}) // statement-level preemption in shard.go, the index dispatch, the inverted / text indexes and the pipeline helpers
+	cfg.TimeJumpProb = pick(r, []float64{0, 0, 0.02})    // timers (there are none on the pinned tree) may fire while stages are parked
 	old := vecStyle
 	vecStyle = pickVecStyle(r)
 	defer func() { vecStyle = old }()
